@@ -83,11 +83,19 @@ def strategy(tier):
         # deferred=True is how the @on_trait_change decorator registers; every container is still empty when its owner
         # is hooked (fresh objects at every insertion), so the promised behaviour is the same
         "deferred": st.sampled_from([False, False, True]),
+        # handler signature: (object, name, old, new) | (new) | (name, new).  The two short forms cannot tell a link change
+        # from a change of the final attribute; they are generated with quiet (':') links only, where the documentation
+        # promises silence for every link change
+        "sig": st.sampled_from([4, 4, 4, 1, 2]),
     })
 
 
 def run(case, ctx):
     p = case["path"]
+    sig = case.get("sig", 4)
+    if sig != 4:
+        p = [[l, False] for l, _ in p]
+        ctx.label("short-handler-signature")
     otc_name, obs_name = names(p)
     created = []
 
@@ -106,8 +114,15 @@ def run(case, ctx):
     root = fresh()
     A, B = [], []
 
-    def h_otc(obj, name, old, new):
-        A.append((id(obj), name))
+    if sig == 4:
+        def h_otc(obj, name, old, new):
+            A.append((id(obj), name))
+    elif sig == 1:
+        def h_otc(new):
+            A.append(("?", "?"))
+    else:
+        def h_otc(name, new):
+            A.append(("?", name))
 
     def h_obs(e):
         B.append((id(e.object), getattr(e, "name", "items")))
@@ -124,7 +139,7 @@ def run(case, ctx):
         for n in list(created):
             del A[:], B[:]
             n.value += 1
-            a = [x for x in A if x == (id(n), "value")]
+            a = [x for x in A if x == (id(n), "value")] if sig == 4 else list(A)
             b = [x for x in B if x == (id(n), "value")]
             exp = 1 if id(n) in r else 0
             if len(a) != exp:
@@ -201,6 +216,13 @@ def run(case, ctx):
         elif k == "set_group":
             n.group = {fresh() for _ in range(op[2])}
             link = "group"
+        if sig != 4 and A:
+            ctx.fail("links/quiet-link-reported", "%r: %r on %r (all links quiet) called the %d-argument legacy handler: %r"
+                     % (otc_name, op, n, sig, A))
+        if link is not None and sig != 4:
+            interesting = True
+            ctx.label("link-repointed")
+            link = None
         if link is not None:
             interesting = True
             ctx.label("link-repointed")
